@@ -81,6 +81,20 @@ PROPS = {
             dict(name="TestOrder", quick=3000, thorough=30000, shards_thorough=8, shrinktime="5s"),
         ],
     ),
+    "C10": dict(
+        pkg="c10", level="exploration",
+        technique="model-based property testing (rapid): generated Append/Read/ReadStream/SaveOffset/LoadOffset/reopen sequences on each bundled store vs a reference slice, offsets bound to log positions",
+        level_text="Random search over operation sequences and event values, run against the memory, SQLite (file and :memory:) and durable-streams stores and a reference log; every offset ever returned is bound to one log position, so any chain of reads is checked for gaps and repeats. Known findings are excluded by construction (counted) and re-observed by deterministic probes.",
+        level_note="The durable-streams server is the client library's in-memory reference server run in-process (its chunking and float64 number decoding are infrastructure, not ebu). Timestamps outside years 1-9999 and invalid UTF-8 are not generated.",
+        assumptions=COMMON_ASSUME + ["the in-process durable-streams reference server (memorystorage + NewHandler) is faithful to the protocol", "JSON documents are compared structurally with exact decimal numbers; timestamps by instant"],
+        tests=[
+            dict(name="TestMemory", quick=3000, thorough=40000, shards_thorough=6),
+            dict(name="TestSQLite", quick=300, thorough=4000, shards_thorough=10, shrinktime="20s"),
+            dict(name="TestSQLiteMemory", quick=150, thorough=1500, shards_thorough=2, shrinktime="20s"),
+            dict(name="TestDurable", quick=1500, thorough=20000, shards_thorough=6, shrinktime="20s"),
+            dict(name="TestKnownProbes", quick=1, thorough=1, shards_thorough=1, rapid=False),
+        ],
+    ),
 }
 
 HOOK_COMMITS = []
